@@ -88,7 +88,15 @@ type limitWriter struct {
 	logs []string
 }
 
+// the slice the caller handed to the CipherWriter whose Write is in flight, and its original contents: the
+// destination looks at it while it is being written to (another goroutine sharing the slice would)
+var cwrCaller, cwrOrig []byte
+var cwrTouchedDuring bool
+
 func (w *limitWriter) Write(p []byte) (int, error) {
+	if cwrCaller != nil && !bytes.Equal(cwrCaller, cwrOrig) {
+		cwrTouchedDuring = true
+	}
 	a := -1
 	if w.i < len(w.acc) {
 		a = w.acc[w.i]
@@ -174,8 +182,10 @@ func init() {
 			p := unhx(ph)
 			orig := append([]byte(nil), p...)
 			callers, origs = append(callers, p), append(origs, orig)
+			cwrCaller, cwrOrig, cwrTouchedDuring = p, orig, false
 			n, err := cw.Write(p)
-			if !bytes.Equal(orig, p) {
+			cwrCaller = nil
+			if !bytes.Equal(orig, p) || cwrTouchedDuring {
 				intact = false
 			}
 			res = append(res, fmt.Sprintf("%d:%s", n, classify(err)))
@@ -245,7 +255,16 @@ func init() {
 		case "unmaskInPlace":
 			g = ws.UnmaskFrameInPlace(f)
 		}
-		return fmt.Sprintf("%s %s %s", hdrStr(g.Header), hx(g.Payload), hx(caller))
+		out := fmt.Sprintf("%s %s", hdrStr(g.Header), hx(g.Payload))
+		switch a[0] {
+		case "maskWith", "mask", "unmask":
+			// the copying variants hand back a frame of the caller's own: whatever is done to it afterwards
+			// (forwarding it masked in place, say) does not reach the bytes that were passed in
+			for i := range g.Payload {
+				g.Payload[i] ^= 0xff
+			}
+		}
+		return fmt.Sprintf("%s %s", out, hx(caller))
 	}
 	register("C02", genC02)
 }
@@ -334,6 +353,16 @@ func genC02(tier string, r *rng) {
 	// single writes above the byte pool's largest class (65536), not a multiple of it, then more writes (offset carries on)
 	for _, n := range []int{65536, 65537, 70001, 131072, 131075} {
 		run(fmt.Sprintf("cwr %s - %s,%s", keys[n%4], hx(r.bytes(n)), hx(r.bytes(5))))
+	}
+	// the unmasking helpers on a frame that is NOT masked (zero key, and a stale key left in the header)
+	for _, v := range []string{"unmask", "unmaskInPlace"} {
+		for _, n := range []int{0, 1, 5, 16, 40} {
+			for _, key := range []string{"00000000", "01020304"} {
+				h := ws.Header{Fin: true, OpCode: ws.OpBinary, Masked: false, Length: int64(n)}
+				copy(h.Mask[:], unhx(key))
+				run(fmt.Sprintf("mf %s %s %s %s", v, hdrArgs(h), keys[1], hx(r.bytes(n))))
+			}
+		}
 	}
 	// frame helpers
 	variants := []string{"maskWith", "maskInPlaceWith", "mask", "maskInPlace", "unmask", "unmaskInPlace"}
